@@ -2,8 +2,8 @@ SPEC = {
     "id": "C10",
     "corr_module": "Corr.C10td",
     "drivers": [
-        {"pkg": "internal/corerad", "test": "TestVerifC10TD", "newgo": True, "timeout": 1500, "corr_module": "Corr.C10td"},
-        {"pkg": "internal/corerad", "test": "TestVerifC10RX", "newgo": True, "timeout": 1500, "corr_module": "Corr.C10td"},
+        {"pkg": "internal/corerad", "test": "TestVerifC10TD", "newgo": True, "timeout": {"quick": 400, "thorough": 1500}, "corr_module": "Corr.C10td"},
+        {"pkg": "internal/corerad", "test": "TestVerifC10RX", "newgo": True, "timeout": {"quick": 400, "thorough": 1500}, "corr_module": "Corr.C10td"},
         {"pkg": "internal/system", "test": "TestVerifC10dial", "newgo": True, "timeout": 1500, "corr_module": "Corr.C10dial"},
         {"pkg": "internal/system", "test": "TestVerifC10link", "newgo": True, "timeout": 900, "corr_module": "Corr.C10link"},
     ],
